@@ -37,8 +37,11 @@ def gen_case(rng):
     grid = rng.permutation(512)[:n_sites]
     site_coords = [[(g // 64) / 8, ((g // 8) % 8) / 8, (g % 8) / 8] for g in grid]
     return {'lattice_name': name, 'lattice': lat.tolist(), 'species': species, 'coords': coords.tolist(), 'states': s.T.tolist(),
-            'labels': labels, 'sites': site_coords, 'resolution': float(rng.choice([0.25, 0.5, 1.0])),
-            'max_dist': float(rng.choice([2.0, 3.5, 5.0]))}
+            'labels': labels, 'sites': site_coords, 'resolution': float(rng.choice([0.25, 0.5, 1.0, 0.3, 0.7, 1.1])),
+            'max_dist': float(rng.choice([2.0, 3.5, 5.0, 3.3, 4.0])),
+            # read-only queries made between building the transitions and asking for the RDF (they switch the
+            # internal representation of the queried trajectory object)
+            'queries_before': [q for q in ('diff-displacements', 'full-displacements', 'diff-metrics') if rng.random() < 0.3]}
 
 
 def label_pipeline(states, labels):
@@ -87,6 +90,13 @@ def check_case(out: Outcome, case, tag):
     tr = Transitions(trajectory=traj, diff_trajectory=traj.filter('Li'), sites=sites, events=events, states=states, inner_states=states)
     with warnings.catch_warnings():
         warnings.simplefilter('ignore')
+        for q in case.get('queries_before', []):
+            if q == 'diff-displacements':
+                _ = tr.diff_trajectory.displacements
+            elif q == 'full-displacements':
+                _ = tr.trajectory.displacements
+            elif q == 'diff-metrics' and T >= 3:
+                _ = tr.diff_trajectory.metrics().speed()
         rdfs = radial_distribution(transitions=tr, floating_specie='Li', max_dist=md, resolution=res)
     got = defaultdict(lambda: np.zeros(nb, dtype=int))
     for state, coll in rdfs.items():
@@ -151,6 +161,10 @@ def check_case(out: Outcome, case, tag):
                 rd = radial_distribution_between_species(trajectory=traj, specie_1=a_, specie_2=b_, max_dist=md, resolution=res)
             n2 = species.count(b_)
             norm = (n2 / L.volume) * (4 / 3) * np.pi * ((bins[:-1] + res) ** 3 - bins[:-1] ** 3)
+            if len(rd.y) != nb - 1 or len(rd.x) != nb - 1:
+                out.fail('property', 'between-species-histogram', {**case, 'pair': [a_, b_]}, expected=f'{nb - 1} shells up to the cut-off {md}',
+                         observed=f'{len(rd.y)} shells, the last one starting at {float(np.asarray(rd.x)[-1]) if len(rd.x) else None}')
+                continue
             raw = np.array(rd.y) * norm
             ia = [k for k, s in enumerate(species) if s == a_]
             ib = [k for k, s in enumerate(species) if s == b_]
